@@ -1,7 +1,5 @@
 package redisemu
 
-import "strings"
-
 func redisGlob(pattern, candidate []rune) bool {
 
 	if pattern == nil {
@@ -32,21 +30,44 @@ func redisGlob(pattern, candidate []rune) bool {
 
 			return false
 		} else if patCh == '[' {
-			var patSet strings.Builder
+			// character class: members, ranges (a-z), escapes and negation (^)
 			patPos++
+			negate := patPos < len(pattern) && pattern[patPos] == '^'
+			if negate {
+				patPos++
+			}
+			match := false
 			for patPos < len(pattern) {
 				letter := pattern[patPos]
 				if letter == ']' {
-					patPos++
 					break
 				}
 				if letter == '\\' && patPos+1 < len(pattern) {
 					patPos++
+					if pattern[patPos] == candidate[i] {
+						match = true
+					}
+				} else if patPos+2 < len(pattern) && pattern[patPos+1] == '-' {
+					start, end := letter, pattern[patPos+2]
+					if start > end {
+						start, end = end, start
+					}
+					patPos += 2
+					if candidate[i] >= start && candidate[i] <= end {
+						match = true
+					}
+				} else if letter == candidate[i] {
+					match = true
 				}
-				patSet.WriteRune(pattern[patPos])
 				patPos++
 			}
-			if !strings.ContainsRune(patSet.String(), candidate[i]) {
+			if patPos < len(pattern) {
+				patPos++ // the closing bracket
+			}
+			if negate {
+				match = !match
+			}
+			if !match {
 				return false
 			}
 		} else if patCh == '\\' && patPos+1 < len(pattern) {
